@@ -167,6 +167,29 @@ def make_tree(kind, seed, t):
                '<surName>S</surName></individualName></creator><contact><references>c1</references></contact>'
                '<additionalMetadata><metadata><x:unit xmlns:x="urn:x" x:a="1">u</x:unit></metadata></additionalMetadata></dataset></eml:eml>')
         return metapype_io.from_xml(xml, clean=rnd.random() < 0.5)
+    if kind == "padded-typed":
+        # typed leaves (dates, times, numbers, coordinates, URIs) carrying padded and / or invalid text: a validator that
+        # trims or converts while it checks must hand the node back as it was - also when it ends by raising
+        root = tables.TreeGen(t, seed, max_depth=5, breadth=3).gen(rnd.choice(["temporalCoverage", "coverage", "dataset", "physical", "boundingCoordinates", "dataTable"]))
+        bad = [" 2020-02-30 ", "noon\t", "\n20x8\n", " 25:00:00 ", " 1e999 ", " x ", "\t-181 ", " http:// ", " 12:00:00 ", " 2020-02-29\n", "  7  "]
+        # make sure dates and times occur: a date range hung into the tree wherever it is (validity of the whole is beside the point)
+        tc = Node("temporalCoverage")
+        rg = Node("rangeOfDates")
+        tc.add_child(rg)
+        for nm in ("beginDate", "endDate"):
+            d = Node(nm)
+            d.add_child(Node("calendarDate", content="2020-01-01"))
+            d.add_child(Node("time", content="12:00:00"))
+            rg.add_child(d)
+        root.add_child(tc)
+        root.add_child(Node("pubDate", content="2020"))
+        k = 0
+        for n in walk(root):
+            kinds = (t.rules.get(t.node_map.get(n.name), [{}, [], {}])[2] or {}).get("content_rules") or []
+            if any(kd not in ("emptyContent", "nonEmptyContent", "strContent", "anyContent") for kd in kinds):
+                n.content = bad[(seed + k) % len(bad)]
+                k += 1
+        return root
     if kind == "unregistered":
         # a live tree some of whose nodes (the root among them) are no longer in the registry - delete_node_instance(id,
         # children=False) does that: the registry is part of what a read-only operation must leave alone
@@ -200,8 +223,18 @@ def make_tree(kind, seed, t):
             for _ in range(rnd.randint(3, 10)):
                 valtrace.mutate(root, rnd, t)
         else:
+            # (every kind of rule-bearing node should occur without its attributes: a responsible party with ids is hung in)
+            pty = Node("creator")
+            ind = Node("individualName")
+            ind.add_child(Node("surName", content="S"))
+            pty.add_child(ind)
+            for val in ("0000-0001-2345-6789", "u-17", ""):
+                u = Node("userId", content=val)
+                u.add_attribute("directory", "https://orcid.org")
+                pty.add_child(u)
+            root.add_child(pty)
             for n in list(walk(root)):
-                if rnd.random() < 0.5:
+                if rnd.random() < 0.5 or n.name == "userId":
                     for a in list(n.attributes):
                         n.remove_attribute(a)
                 if rnd.random() < 0.1 and n.content is not None:
@@ -267,9 +300,9 @@ def run(rep, tier, seed):
     for i, kind in enumerate(["generated", "entities", "ns", "default-ns"] + (["generated", "entities"] if tier == "thorough" else [])):      # (small trees: 31^2 pairs of calls each)
         jobs.append((kind, seed * 101 + i, plan_pairs))
     # seeded sequences of length 24 on larger trees, incl. the fixture
-    nseq = 18 if tier == "quick" else 270
+    nseq = 20 if tier == "quick" else 300
     for i in range(nseq):
-        kind = ["fixture", "generated", "entities", "ns", "default-ns", "mutated", "stripped", "exotic", "unregistered"][i % 9]
+        kind = ["fixture", "generated", "entities", "ns", "default-ns", "mutated", "stripped", "exotic", "unregistered", "padded-typed"][i % 10]
         jobs.append((kind, seed * 977 + i, [rnd.choice(sorted(ops)) for _ in range(24)]))
     traces = [tr for chunk in parallel(w_record, jobs, chunk=1) for tr in chunk]
     strip = lambda tr: {"init": tr["init"], "events": tr["events"]}  # noqa: E731
